@@ -7,11 +7,12 @@ from vf.harness import sample
 
 ID = "C16"
 LEVEL = "model_checking"
+ALT_MOUNT = True
 
 
 def run(ctx):
     c16h._CFG = c16h.Cfg(ctx.seed, ctx.thorough)
-    depth = 6 if ctx.thorough else 5
+    depth = (6 if ctx.thorough else 5) - (2 if ctx.alt else 0)
     res = bfs(c16h.run_h, depth, ctx)
     viols = res["violations"]
     for v in viols:
@@ -30,7 +31,7 @@ def run(ctx):
         from vf.checks import c16s
     except ImportError:
         c16s = None
-    if c16s is not None:
+    if c16s is not None and not ctx.alt:
         s = c16s.run_s(ctx)
         viols += s["violations"]
         cov["schedules"] = s["coverage"]
